@@ -392,8 +392,11 @@ func (g *gen) scenario() (*scenario, string) {
 			run = 1
 		}
 		mode := "e"
-		if rng.Intn(4) == 0 {
+		switch rng.Intn(8) {
+		case 0, 1:
 			mode = "p"
+		case 2, 3, 4:
+			mode = errClasses[rng.Intn(len(errClasses))] // WHAT the callback returns: see errDict
 		}
 		sc.Fail[fmt.Sprintf("%d.%s.%d", m, kindLetter[k], run)] = mode
 		g.r.Count("fail:" + kindName[k] + ":" + mode)
@@ -526,6 +529,37 @@ func (g *gen) restartScenario() *scenario {
 	return sc
 }
 
+// errorValueScenarios: every error-value class of errDict x {prep, start, stop} x position in a short chain,
+// without and with module management. A routine that returns a non-nil error has failed, whatever the value
+// is, wraps or claims to be: its dependents must not start on top of it, Start must not return nil, no stop
+// routine is owed for it.
+func errorValueScenarios() []*scenario {
+	var out []*scenario
+	for _, cls := range errClasses {
+		for k := 0; k < 3; k++ {
+			for pos := 0; pos < 2; pos++ {
+				for mg := 0; mg < 2; mg++ {
+					n := 3
+					sc := &scenario{N: n, Deps: make([][]int, n), Nil: make([][3]bool, n), Dur: make([][3]int, n), Fail: map[string]string{}}
+					for i := 1; i < n; i++ {
+						sc.Deps[i] = []int{i - 1}
+					}
+					sc.Fail[fmt.Sprintf("%d.%s.0", pos, kindLetter[k])] = cls
+					if mg == 1 {
+						sc.Mgmt = true
+						// the failed routine is retried by the management pass (second invocation succeeds)
+						sc.Ops = []string{"E2", "S", "M", "D2", "M", "X"}
+					} else {
+						sc.Ops = []string{"S", "X"}
+					}
+					out = append(out, sc)
+				}
+			}
+		}
+	}
+	return out
+}
+
 // regression scenarios: run first, every time.
 var corpus = []string{
 	// DESIGN §7 #14: B depends on A, B's start fails, Shutdown must still stop A
@@ -607,6 +641,13 @@ func generate(r *hxlib.Run, emit func(hxlib.Case)) {
 		batch = append(batch, item{l, "corpus", sc})
 	}
 	flush()
+	for _, sc := range errorValueScenarios() {
+		batch = append(batch, item{sc.line(), "error-value", sc})
+		for key, cls := range sc.Fail {
+			r.Count("error-value:" + strings.Split(key, ".")[1] + ":" + cls)
+		}
+	}
+	flush()
 	for i := 0; i < total; i++ {
 		sc, kind := g.scenario()
 		batch = append(batch, item{sc.line(), kind, sc})
@@ -633,7 +674,9 @@ func generate(r *hxlib.Run, emit func(hxlib.Case)) {
 
 const rule = "one case = one scenario executed on the real module system: a generated dependency graph (random DAGs, chains, layers, fans, diamonds, trees; " +
 	"1-12 modules quick, 1-16 thorough; registration order is not a topological order), callbacks with generated run times, a generated set of " +
-	"prep/start/stop callbacks that fail or panic, nil callbacks, and a sequence Start, Enable/Disable+ManageModules…, Shutdown (plus glue: double " +
+	"prep/start/stop callbacks that panic or return an error (the returned VALUE drawn from a dictionary: plain, context.Canceled / DeadlineExceeded / " +
+	"ErrCleanExit / ErrRestartNow bare, %w-wrapped, twice wrapped and joined, *ModuleError, an error whose Is method says yes to everything, a typed nil " +
+	"pointer, an empty message, io.EOF; every class x prep/start/stop also runs as a fixed sweep on a 3-chain), nil callbacks, and a sequence Start, Enable/Disable+ManageModules…, Shutdown (plus glue: double " +
 	"Start/Shutdown, late Register, cycles, unregistered dependencies), plus a class of short chains with instantaneous callbacks where the " +
 	"module started last is stopped (and restarted) within microseconds. The recorded history (callback begin/end in global order, return values, " +
 	"status/enabled/enabled-as-dependency of every module after each call) is replayed through the Lean model (acceptor) and judged by the monitor. " +
